@@ -1,15 +1,9 @@
 (* Year.v — year_kind and year_length of every calendar a user can hold, against the
    set-based closed forms of Spec.v (year_count = number of dates in the year). *)
-From JV Require Import Sem Gen Spec.
+From JV Require Import Sem Gen Spec SpecX.
 From JV.Proofs Require Import SpecFacts GapFacts Cal Cmp Inner.
 Open Scope Z_scope.
 Ltac Zify.zify_post_hook ::= Z.to_euclidean_division_equations.
-
-Definition ykind_gen (k : ykind) : YearKind :=
-  match k with
-  | KCommon => YearKind_Common | KLeap => YearKind_Leap | KReformCommon => YearKind_ReformCommon
-  | KReformLeap => YearKind_ReformLeap | KSkipped => YearKind_Skipped
-  end.
 
 Lemma gap_ok c : Calendar_gap (cal_of c) = Ret (match c with CR r => Some (gap_of r) | _ => None end).
 Proof. destruct c; reflexivity. Qed.
